@@ -150,10 +150,15 @@ fn main() {
         println!("{}", c09::dump(&args[2]));
         return;
     }
+    if args[1] == "c12line" {
+        // the C12 case line of the macro program a seed stands for (C08 kind Q)
+        println!("{}", c12::program_line(args[2].parse().unwrap()));
+        return;
+    }
     if args[1] == "c08show" {
         // the entry file of a C08 case (the words after the configuration)
         let w: Vec<&str> = args[2..].iter().map(|s| s.as_str()).collect();
-        match c08::input_of(&w) { Some(i) => print!("{}", i.text), None => eprintln!("bad case") }
+        match c08::input_of(&w) { Some(i) => { print!("{}", i.text); for (n, t) in &i.extra { print!("\n===== {}\n{}", n, t); } } None => eprintln!("bad case") }
         return;
     }
     if args[1] == "child" {
